@@ -574,6 +574,87 @@ def translate_fingerprint(vsrc, tsrc):
 
 
 # ---------------------------------------------------------------------------------------------
+# Vector.__setitem__: the loop that works out the dtype accommodating every new value
+# ---------------------------------------------------------------------------------------------
+def translate_setitem_target(src):
+    tree = ast.parse(src)
+    f = find_func(tree, "__setitem__", "Vector")
+    loops = [s for s in ast.walk(f) if isinstance(s, ast.For) and ast.unparse(s.iter) == "new_values" and ast.unparse(s.target) == "val"]
+    if len(loops) != 1:
+        raise TranslateError("__setitem__: loop over new_values")
+    loop = loops[0]
+    # the statement list that holds the loop: `target = self._dtype` must precede it, the two tests on `target` follow it
+    holder = None
+    for node in ast.walk(f):
+        for fld in ("body", "orelse"):
+            lst = getattr(node, fld, None)
+            if isinstance(lst, list) and loop in lst:
+                holder = lst
+    k = holder.index(loop)
+    if k == 0 or ast.unparse(holder[k - 1]) != "target = self._dtype":
+        raise TranslateError("__setitem__: target is not initialised with self._dtype")
+
+    def step(stmts, ind):
+        pad = " " * ind
+        stmts = [s for s in stmts if not is_noise(s)]
+        if not stmts:
+            return pad + ".ok target"
+        s, rest = stmts[0], stmts[1:]
+        if isinstance(s, ast.Continue):
+            return pad + ".ok target"
+        if isinstance(s, ast.Raise):
+            if not ast.unparse(s.exc).startswith("SerifTypeError("):
+                raise TranslateError("__setitem__: raises " + ast.unparse(s.exc)[:30])
+            return pad + ".error Err.type"
+        if isinstance(s, ast.Assign) and len(s.targets) == 1 and isinstance(s.targets[0], ast.Name):
+            n, v = s.targets[0].id, ast.unparse(s.value)
+            if n == "target" and v == "target.with_nullable(True)":
+                e = "({ kind := target.kind, nullable := true } : DType)"
+            elif n == "target" and v == "DataType(required_kind, target.nullable)":
+                e = "({ kind := required_kind, nullable := target.nullable } : DType)"
+            elif n == "required_kind" and v == "infer_dtype([val]).kind":
+                e = "(inferDtypeT [val]).kind"
+            else:
+                raise TranslateError("__setitem__: assignment " + ast.unparse(s)[:50])
+            return pad + f"let {n} := {e}\n" + step(rest, ind)
+        if isinstance(s, ast.Try):
+            # try: validate_scalar(val, target)   except TypeError: <handler>
+            if not (len(s.body) == 1 and ast.unparse(s.body[0]) == "validate_scalar(val, target)" and len(s.handlers) == 1
+                    and ast.unparse(s.handlers[0].type) == "TypeError" and not s.orelse and not s.finalbody):
+                raise TranslateError("__setitem__: try shape")
+            return (pad + "if validatesT val target then\n" + step(rest, ind + 2) + "\n" + pad + "else\n"
+                    + step(s.handlers[0].body + rest, ind + 2))
+        if isinstance(s, ast.If):
+            t = ast.unparse(s.test)
+            if t == "val is None":
+                c = "(val == Tag.none)"
+            elif t == "(target.kind, required_kind) not in _PROMOTABLE":
+                c = "(!(promotable target.kind required_kind))"
+            elif t == "(target.kind, required_kind) in _PROMOTABLE":
+                c = "(promotable target.kind required_kind)"
+            else:
+                raise TranslateError("__setitem__: condition " + t[:50])
+            return (pad + f"if {c} then\n" + step(s.body + rest, ind + 2) + "\n" + pad + "else\n" + step(s.orelse + rest, ind + 2))
+        raise TranslateError("__setitem__: statement " + ast.unparse(s)[:50])
+
+    body = step(loop.body, 2)
+    after = [ast.unparse(s.test) for s in holder[k + 1:] if isinstance(s, ast.If)]
+    if after != ["target.kind is not self._dtype.kind", "target.nullable and (not self._dtype.nullable)"]:
+        raise TranslateError("__setitem__: tests after the loop: " + repr(after)[:80])
+    return ["/-- translated from the body of the loop `for val in new_values` in `Vector.__setitem__` (`promotable a b` is\n"
+            "    `(a, b) in _PROMOTABLE`; `validate_scalar` returning is `validatesT`, its TypeError the `else`; `.error` = the\n"
+            "    `raise SerifTypeError`; a conversion that raises inside `validate_scalar` is outside this translation) -/\n"
+            "def setitemTargetStepT (promotable : Kind → Kind → Bool) (target : DType) (val : Tag) : Except Err DType :=\n" + body,
+            "/-- translated from `target = self._dtype; for val in new_values: …` -/\n"
+            "def setitemTargetT (promotable : Kind → Kind → Bool) (dtype : DType) (new_values : List Tag) : Except Err DType :=\n"
+            "  new_values.foldlM (setitemTargetStepT promotable) dtype",
+            "/-- translated from the two tests after the loop: `if target.kind is not self._dtype.kind: self._promote(target.kind)` and\n"
+            "    (on the dtype as it is then) `if target.nullable and not self._dtype.nullable: …with_nullable(True)` -/\n"
+            "def setitemNeedsPromoteT (target dtype : DType) : Bool := (target.kind != dtype.kind)\n"
+            "def setitemNeedsNullableT (target dtype : DType) : Bool := (target.nullable && (!dtype.nullable))"]
+
+
+# ---------------------------------------------------------------------------------------------
 # Table._build_column_map: the loop body, as a state transformer (accessor of this column, updated `seen`)
 # ---------------------------------------------------------------------------------------------
 def _assigned(stmts):
@@ -790,7 +871,8 @@ def generate(src_dir):
              ("csv", lambda: translate_csv(open(os.path.join(src_dir, "csv.py")).read())),
              ("build_column_map", lambda: translate_build_column_map(open(os.path.join(src_dir, "table.py")).read())),
              ("fingerprint", lambda: translate_fingerprint(open(os.path.join(src_dir, "vector.py")).read(),
-                                                           open(os.path.join(src_dir, "table.py")).read()))]
+                                                           open(os.path.join(src_dir, "table.py")).read())),
+             ("setitem_target", lambda: translate_setitem_target(open(os.path.join(src_dir, "vector.py")).read()))]
     for name, fn in items:
         try:
             parts += fn()
